@@ -481,6 +481,16 @@ int main(int argc, char** argv) {
                     st.locktime_operands++;
                     for (auto& kv : lv.by_key) v.add("c18:locktime-operand:len=" + std::to_string(operand.size()) + ":" + kv.first, kv.second.first.what, J::raw(kv.second.first.replay_json));
                 }
+                // the same strings through the unary numeric opcodes (1ADD 1SUB NEGATE ABS NOT 0NOTEQUAL), with and without MINIMALDATA: whatever
+                // the operand's spelling, the result on the stack is the minimal encoding of the value (a padded or negative-zero operand is
+                // never passed through byte for byte)
+                for (auto& operand : ops5) for (uint8_t opc : {uint8_t(0x8b), uint8_t(0x8c), uint8_t(0x8f), uint8_t(0x90), uint8_t(0x91), uint8_t(0x92)}) for (uint32_t fl : {0u, uint32_t(ref::F_MINIMALDATA)}) {
+                    if (operand.size() > 4 && (operand[0] != 0x7f || fl)) continue;
+                    Violations lv; Stats ls; Cfg c{ref::SigVer::BASE, fl, {operand}};
+                    compare_script(c, bytes{opc}, lv, ls);
+                    st.locktime_operands++;
+                    for (auto& kv : lv.by_key) v.add("c18:unary-result:len=" + std::to_string(operand.size()) + ":" + kv.first, kv.second.first.what, J::raw(kv.second.first.replay_json));
+                }
             }
             // over-long strings are rejected at either setting
             { int64_t d; bytes s5{1, 2, 3, 4, top}; if (impl_num(s5, false, 4, d)) v.add("c18:length-limit", "a 5-byte string is accepted with a 4-byte limit", JObj().put("engine", "mc_bounds").put("mode", "c18").put("string", ref::hex(s5)).put("maxlen", 4).j()); bytes s6{1, 2, 3, 4, 5, top}; if (impl_num(s6, false, 5, d)) v.add("c18:length-limit", "a 6-byte string is accepted with a 5-byte limit", JObj().put("engine", "mc_bounds").put("mode", "c18").put("string", ref::hex(s6)).put("maxlen", 5).j()); }
